@@ -516,6 +516,23 @@ def longest_string_rule(prog, res, rule='validate-first'):
     else:
         v = R.render(ins[0]['args'][1])
     m = re.match(r'^local:(\w+)$', v)
+    # the length taken from std::max_element: without a comparator it is the *largest string in dictionary order*, not the longest
+    fam_ = [f] + [prog.funcs[c_['callee']['usr']] for c_ in f.calls() if c_['callee'].get('inrepo') and c_['callee'].get('usr') in prog.funcs and
+                  (prog.funcs[c_['callee']['usr']].rec.get('internal') or '(anonymous namespace)' in prog.funcs[c_['callee']['usr']].qname) and prog.funcs[c_['callee']['usr']].body is not None]
+    for h_ in fam_:
+        for c_ in h_.calls():
+            if c_['callee'].get('qname') != 'std::max_element':
+                continue
+            a_ = h_.call_args(c_)
+            if len(a_) == 2:
+                res.viol(rule, inst, h_.loc(c_['id']), 'the length put in front of the dimensions is the size of std::max_element(first, last) without a comparator: that is the largest string in dictionary order, '
+                         'not the longest one ("b" wins over "aaaa"), so longer strings are cut when the parameter is written', function=f.sig, expr='longest')
+                return
+            lam_ = h_.nodes[h_.strip(a_[2], 'all')]
+            rets_ = [Renderer(h_).render(r_['ch'][0]) for r_ in h_.all_nodes({'ReturnStmt'}) if r_.get('ch') and r_['id'] in h_.descendants(lam_['id'])] if lam_['k'] == 'LambdaExpr' else []
+            if len(rets_) == 1 and re.match(r'^\(?\w[\w:\[\]]*\.size < \w[\w:\[\]]*\.size\)?$', rets_[0].replace('()', '')):
+                res.ok(rule, inst, h_.loc(c_['id']), 'std::max_element with a comparator on the sizes', function=f.sig, expr='longest')
+                return
     if not m:
         res.undecided(rule, inst, f.loc(ins[0]['id']), 'inserted length is %s: computed by something the rule cannot read' % v, function=f.sig, expr='longest')
         return
